@@ -29,6 +29,45 @@ def loops_of(f):
     return [n for n in f.walk() if n["k"] in ("ForStmt", "WhileStmt", "DoStmt")]
 
 
+def strstr_rule(prog, run, rid, hay_len=5, needle_len=3):
+    """SimpleString::StrStr folded on every haystack over {a,b} up to hay_len x every needle up to needle_len (bytes behind
+    a terminator do not exist): the first occurrence or NULL. Self-overlapping needles and near-misses directly before the
+    real occurrence are in the domain (a search that does not back up far enough after a partial match fails there).
+    Shared with C02 (name filters use contains) and C03 (STRCMP_CONTAINS)."""
+    f = prog.fn(SS + "::StrStr")
+    run.analysed(f)
+    inl = {g.qn for g in prog.functions.values() if g.qn.startswith(SS + "::")}
+    bad, ncase = None, 0
+    for L in range(hay_len + 1):
+        for a_ in itertools.product("ab", repeat=L):
+            for M in range(needle_len + 1):
+                for b_ in itertools.product("ab", repeat=M):
+                    ncase += 1
+                    env = {f.params[0]["name"]: ("ptr", "A", 0), f.params[1]["name"]: ("ptr", "B", 0)}
+                    for i_, ch in enumerate("".join(a_) + "\0"):
+                        env["A[%d]" % i_] = ord(ch)
+                    for i_, ch in enumerate("".join(b_) + "\0"):
+                        env["B[%d]" % i_] = ord(ch)
+                    ev = Evaluator(prog, f, env=env)
+                    ev.inline = inl
+                    try:
+                        ev.run_blocks(f.entry, max_steps=4000)
+                        r = getattr(ev, "ret", None)
+                        if isinstance(r, tuple) and r and r[0] == "unknown":
+                            raise Unknown(r[1])
+                    except Unknown as u:
+                        oob = [k_ for k_ in getattr(ev, "absent_reads", []) if re.match(r"^[AB]\[", k_)]
+                        if not oob:
+                            raise AnalysisBroken("%s.%s: StrStr cannot be folded on (%r, %r): %s" % (run.pid, rid, "".join(a_), "".join(b_), u))
+                        r = "reads %s, outside the string" % oob[0]
+                    pos = "".join(a_).find("".join(b_))
+                    want = 0 if pos < 0 else ("ptr", "A", pos)
+                    if r != want and bad is None:
+                        bad = "StrStr(%r, %r) folds to %s, expected %s" % ("".join(a_), "".join(b_), r, "NULL" if pos < 0 else "haystack + %d" % pos)
+    run.ob(rid, "StrStr folded on %d (haystack, needle) pairs over {a,b}: first occurrence or NULL, also for needles that overlap themselves or follow a near-miss" % ncase, f.site, bad is None,
+           witness=bad or "%d pairs" % ncase, what="" if bad is None else "a substring that is there is not found (or one that is not there is): " + bad)
+
+
 def replace_rule(prog, run, rid, alphabet="ab", patterns=("", "a", "b", "aa", "ab", "ba", "bb"), replacements=("", "a", "ab", "bbb"), maxlen=4):
     """SimpleString::replace(const char*, const char*) folded over every string of the alphabet up to maxlen x patterns x
     replacements against Python's non-overlapping left-to-right replacement (shared with C16: the XML escaper is built on it)"""
@@ -611,6 +650,7 @@ def check(ctx, run):
                 want = 0 if pos < 0 else ("ptr", "A", pos)
                 yield '"%s", "%s"' % (show(a_), show(b_)), env, (lambda r, ev, want=want: "" if r == want else "folds to %s, expected %s" % (r, want))
     prim_rule("StrStr", str_cases, "first occurrence or NULL; reads inside both strings only")
+    strstr_rule(prog, run, "R5", hay_len=5 + DEEP, needle_len=3 + DEEP)
 
     def cpy_cases(f):
         for b_ in strings(3 + DEEP, (97, HI)):
